@@ -4,7 +4,6 @@ Model: coq/theories/Model/Clear.v; theorems: coq/theories/Props/C05.v.
 The correspondences run the real `CLEAR(...)` / `TrackingMetricsScore(...)._sum_clear()` on histories of real
 `DynamicObjectWithPerceptionResult` objects and compare every counter and score with the Gallina model inside Coq.
 The oracle re-states the property directly on the implementation's counters (independent of the Coq model)."""
-import itertools
 import math
 
 from harness.lib.core import Corr, Prop, qlit, llit, olit
@@ -166,25 +165,35 @@ def _unique(frame):
     return len(set(ek)) == len(ek) and len(set(gk)) == len(gk)
 
 
-def recount(case, entry, facts):
+def recount(case, entry, facts, own=False):
     """TP / FP / switches / assigned score counted from the property text.
     Returns (tp, fp, sw, score, n_target, n_correct, exact) -- `exact` is False when some frame has two
-    results with the same estimated track or the same ground truth (the text presupposes a pairing)."""
+    results with the same estimated track or the same ground truth (the text presupposes a pairing).
+    "a TP of the previous frame" is judged with the current result's threshold (own=False, what the code
+    does) or with the previous result's own label threshold, evaluated labels only (own=True)."""
     labels, thrs = entry["labels"], entry["thresholds"]
     frames = entry["frames"]
     tp = fp = sw = 0
     score = 0.0
     n_target = n_correct = 0
     exact = all(_unique(f) for f in frames)
+
+    def lab_of(r):
+        return r[3] if r[2] is not None else r[1]
+
     for i in range(1, len(frames)):
         prev, cur = frames[i - 1], frames[i]
         for r, fa in zip(cur, facts[i]):
-            lab = r[3] if r[2] is not None else r[1]
+            lab = lab_of(r)
             if lab not in labels:
                 continue
             thr = thrs[labels.index(lab)]
             n_target += 1
-            prev_tp = [(p, pf) for p, pf in zip(prev, facts[i - 1]) if _correct(case, p, pf, thr)]
+            if own:
+                prev_tp = [(p, pf) for p, pf in zip(prev, facts[i - 1])
+                           if lab_of(p) in labels and _correct(case, p, pf, thrs[labels.index(lab_of(p))])]
+            else:
+                prev_tp = [(p, pf) for p, pf in zip(prev, facts[i - 1]) if _correct(case, p, pf, thr)]
             cont = [(p, pf) for p, pf in prev_tp if r[2] is not None and (p[0], p[1], p[2]) == (r[0], r[1], r[2])]
             ok = _correct(case, r, fa, thr)
             n_correct += 1 if ok else 0
@@ -200,6 +209,40 @@ def recount(case, entry, facts):
             else:
                 fp += 1
     return tp, fp, sw, score, n_target, n_correct, exact
+
+
+FINDING_CLASS = "prev-tp-judged-with-current-threshold"
+FINDING_PREFIX = "[" + FINDING_CLASS + "] "
+
+
+_listed = []
+
+
+def _finding_listed():
+    """Is the reading finding listed in known_findings.json (class = FINDING_CLASS)?  Only then is it reported
+    (as KNOWN-FINDING through C05.known_match); otherwise it is tallied in the evidence distribution."""
+    if not _listed:
+        from harness.lib.core import load_known
+
+        _listed.append(any(f.get("property") == "C05" and f.get("status") == "known" and f.get("class") == FINDING_CLASS
+                           for f in load_known()))
+    return _listed[0]
+
+
+def reading_differs(case, entry, o, facts):
+    """The implementation's counters follow the code's reading (previous result judged with the current
+    result's threshold) and the other reading (previous result judged by its own label) gives other counters."""
+    try:
+        a = recount(case, entry, facts, own=False)
+        b = recount(case, entry, facts, own=True)
+    except Undecided:
+        return None
+    if not a[6] or a[:3] == b[:3]:
+        return None
+    if (o["tp"], o["fp"], o["id_switch"]) != a[:3]:
+        return None
+    return (f"(tp, fp, id_switch) = {a[:3]}: the previous frame's results were judged with the current result's label threshold; "
+            f"judged by their own label (as the previous frame's evaluation did) the definitions give {b[:3]}")
 
 
 def _close(a, b):
@@ -223,6 +266,7 @@ def oracle_clear(case, entry, o, facts, renamed):
         return f"predict_num {o['predict_num']} != number of results after the first frame {n_eval}"
     try:
         rtp, rfp, rsw, rsc, n_target, n_correct, exact = recount(case, entry, facts)
+        otp, ofp, osw, osc = recount(case, entry, facts, own=True)[:4]
     except Undecided:
         rtp = None
     if rtp is not None:
@@ -233,9 +277,9 @@ def oracle_clear(case, entry, o, facts, renamed):
         if tp < n_correct:
             return f"{n_correct} correct results but TP = {tp}"
         if exact:
-            if (tp, fp, sw) != (rtp, rfp, rsw):
+            if (tp, fp, sw) != (rtp, rfp, rsw) and (tp, fp, sw) != (otp, ofp, osw):
                 return f"counters (tp, fp, id_switch) = ({tp}, {fp}, {sw}) but the definitions give ({rtp}, {rfp}, {rsw})"
-            if not _close(sc, rsc):
+            if not _close(sc, rsc if (tp, fp, sw) == (rtp, rfp, rsw) else osc):
                 return f"tp_matching_score {sc} but the assigned scores of the TPs sum to {rsc}"
     # MOTA / MOTP formulas on the implementation's own counters
     ngt = entry["num_gt"]
@@ -258,6 +302,10 @@ def oracle_clear(case, entry, o, facts, renamed):
         for k, v in exp.items():
             if not _close(float(o[k]) if o[k] is not None else None, None if v is None else float(v)):
                 return f"{entry.get('shape', 'shape')}: expected {k} = {v}, got {o[k]}"
+    if _finding_listed():
+        d = reading_differs(case, entry, o, facts)
+        if d:
+            return FINDING_PREFIX + d
     return None
 
 
@@ -399,9 +447,19 @@ def gen_random(tier, rng):
     return out
 
 
+WITNESS_W1 = {"labels": ["CAR", "PEDESTRIAN"], "thresholds": [1.0, 2.0], "num_gt": 2, "policy": "ALLOW_UNKNOWN",
+              "frames": [[[0, "UNKNOWN", 0, "PEDESTRIAN", 12]], [[0, "UNKNOWN", 1, "CAR", 4]]]}
+WITNESS_W2 = {"labels": ["CAR"], "thresholds": [1.0], "num_gt": 1, "policy": "ALLOW_ANY",
+              "frames": [[[0, "CAR", 0, "TRUCK", 2]], [[0, "CAR", 1, "CAR", 2]]]}
+
+
 def gen_boundary(tier, rng):
     out = []
     C = "CAR"
+    # witnesses of Props/C05.v C05_prev_tp_by_own_label_refuted (replayed on the real code on every run)
+    for w in (WITNESS_W1, WITNESS_W2):
+        out.append(_case("witness-prev-tp-reading", "center", [_entry(w["labels"], w["thresholds"], w["num_gt"], [list(map(list, f)) for f in w["frames"]])],
+                         policy=w["policy"]))
     # score exactly on / next to the threshold, in both frames, all four combinations (carry-over beyond threshold)
     for thr in (0.5, 1.0):
         k = int(thr * 8)
@@ -555,6 +613,12 @@ class ClearCorr(Corr):
                 d["mota_clamped_to_0"] += (oo["MOTA"] == 0.0 and oo["tp"] - oo["fp"] - oo["id_switch"] < 0)
                 d["non_unique_frames"] += not all(_unique(f) for f in en["frames"])
                 d["multi_label"] += len(en["labels"]) > 1
+            for en, oo, fa in zip(c["clears"], o["clears"], o["facts"]):
+                d["prev_tp_reading_differs"] = d.get("prev_tp_reading_differs", 0) + (reading_differs(c, en, oo, fa) is not None)
+                try:
+                    d["exactly_recounted"] = d.get("exactly_recounted", 0) + bool(recount(c, en, fa)[6])
+                except Undecided:
+                    d["score_on_threshold_undecided"] = d.get("score_on_threshold_undecided", 0) + 1
         return d
 
 
@@ -691,20 +755,48 @@ class C05(Prop):
     design_ref = "DESIGN.md section 4, C05"
     technique = ("Rocq proof over an executable Gallina model of CLEAR.__init__/_calculate_tp_fp/_is_id_switched/_is_same_match/"
                  "_calculate_score/_sum_clear; in-Coq correspondence with the real CLEAR and TrackingMetricsScore on generated histories")
-    level_text = "see Props/C05.v"
-    level_note = ""
+    level_text = ("Theorems (Props/C05.v, closed under the global context) hold for ALL histories (any number of frames and results), both "
+                  "matching directions, all target-label/threshold lists: every result of an evaluated label after the first frame adds exactly 1 "
+                  "to TP or FP (clear_partition); under per-frame uniqueness of estimated tracks and ground-truth ids (more generally a consistent "
+                  "TP pairing) the loop equals the declarative spec TP = correct or continues a previous TP pairing, switch = new TP whose pairing "
+                  "differs from a previous TP's, assigned score = previous score for continued pairings (clear_refines_spec); MOTA = max(0,(TP-FP-IDsw)/GT) "
+                  "or inf, MOTP = mean assigned TP score or inf; _sum_clear = GT-weighted / TP-weighted means; invariance under every injective "
+                  "renaming of estimated and ground-truth ids; perfect tracker => 0 switches, 0 FP, MOTA 1; one brand-new id on a continuing target "
+                  "=> exactly 1 switch; one exchange of two identities => exactly 2 (any length, any frame, any number of other targets with births "
+                  "and deaths). The model is compared with the real CLEAR / TrackingMetricsScore inside Coq on every generated history "
+                  "(counters exactly, scores within 1e-9, inf cases).")
+    level_note = ("Refuted reading (Props/C05.v C05_prev_tp_by_own_label_refuted, replayed on the real code every run): the code judges whether a "
+                  "previous-frame result is a TP with the CURRENT result's label threshold, not with the previous result's own label; the two readings "
+                  "coincide for a single threshold with all previous results of evaluated labels (C05_prev_tp_by_own_label_partial). "
+                  "Trusted: Coq kernel+vm_compute; the facts fed to the model (uuid, labels, is_label_correct, get_matching(mode).value) are read "
+                  "from the real objects through public getters; their geometric meaning is C06's business.")
     rule = ("histories of real DynamicObjectWithPerceptionResult objects; exhaustive frame pairs over ids {0,1} (<=2 results), sampled "
             "3-4 frame histories over ids {0,1,2} (<=3 results), threshold/label/degenerate boundaries, tracker shapes (perfect, one new id, "
             "one swap), random long tracker histories (2-40/60 frames, 0-10/12 results); non-trivial = at least one TP or FP counted")
     assumptions = ["tp_metrics = TPMetricsAp (the default, the only one TrackingMetricsScore uses): TP value 1.0",
                    "len(target_labels) == len(matching_threshold_list) (asserted by TrackingMetricsScore)",
                    "get_matching(mode) is not None (3D objects or 2D objects with a ROI); IoU thresholds within [0,1]",
-                   "uuids are strings, not None"]
-    not_proved = []
+                   "uuids are strings, not None",
+                   "clear_refines_spec: the TPs of every frame form a consistent pairing (implied by per-frame unique estimated (uuid,label) and unique GT uuids)"]
+    not_proved = ["other TPMetrics (TPMetricsAph/TPMetricsConfidence weights) in CLEAR",
+                  "the spec for frames in which two results share an estimated track or a ground truth (there the loop is order-dependent; "
+                  "partition, formulas and renaming invariance are proved without that assumption)",
+                  "float rounding of the score sums (compared within 1e-9)",
+                  "how MetricsScore/the manager builds the per-label histories (C13)"]
 
     def correspondences(self):
         return [SmallCorr(), LongCorr(), SumCorr()]
 
+    def known_match(self, finding, corr_name, case, obs, msg):
+        return finding.get("class") == FINDING_CLASS and isinstance(msg, str) and msg.startswith(FINDING_PREFIX)
 
-READY = False
+    def known_probe(self, finding):
+        if finding.get("class") != FINDING_CLASS:
+            return False
+        w = WITNESS_W1
+        o, _ = _run_clear({"mode": "center", "policy": w["policy"]}, w)
+        return o["id_switch"] == 0
+
+
+READY = True
 PROP = C05()
